@@ -427,7 +427,7 @@ func (rep *Report) finish(evFile string) int {
 	for k := range trusted {
 		tb = append(tb, "trusted contract (body not verified): "+k)
 	}
-	var as []string
+	as := []string{}
 	for a := range assumptions {
 		as = append(as, assumptionText(a))
 	}
